@@ -171,8 +171,24 @@ class ViewT:
             n = n * s
         return n
 
+    contig = True  # parameters get a symbolic flag (see the blocking case); everything derived by view()/split is a plain view
+
+    def contiguous(self):
+        """Tensor.contiguous(): the tensor itself when it is contiguous, otherwise a COPY in fresh storage (never a view)."""
+        c = self.contig
+        if c is True or bool(c):
+            return self
+        ns = Storage(self.storage.name + ".contiguous-copy")
+        ns.counts = getattr(self.storage, "counts", None)
+        return ViewT(ns, self.shape0, self.box)
+
+    def is_contiguous(self):
+        return self.contig
+
     def detach(self):
-        return ViewT(self.storage, self.shape0, self.box)
+        r = ViewT(self.storage, self.shape0, self.box)
+        r.contig = self.contig
+        return r
 
     def view(self, *shape):
         if len(shape) == 1 and isinstance(shape[0], (tuple, list)):
@@ -331,6 +347,9 @@ def _blocking_case(case):
                         assume(z3.Product(*[x.t for x in n]) > s.t)
                     P = ViewT(Storage(f"param{j}"), n, [(0, x) for x in n])
                     P.counts = counts
+                    P.storage.counts = counts
+                    # the parameter may be a non-contiguous leaf whose layout still admits view(merged_dims) (assumed: the real view succeeds)
+                    P.contig = SymBool(z3.Bool(f"param{j}_is_contiguous"))
                     if present[j]:
                         P.grad = ViewT(Storage(f"grad{j}"), n, [(0, x) for x in n])
                         P.grad.counts = counts
@@ -340,7 +359,7 @@ def _blocking_case(case):
                     cmap[P.storage] = P.counts
                     if P.grad is not None:
                         cmap[P.grad.storage] = P.counts
-                stub = SplitStub(lambda tt, d: cmap[tt.storage][d])
+                stub = SplitStub(lambda tt, d: (cmap.get(tt.storage) or tt.storage.counts)[d])
 
                 class FT:
                     split = staticmethod(stub.split)
@@ -446,6 +465,32 @@ def native_blocking(shape, maxdim, merge):
     return None
 
 
+def native_noncontiguous():
+    """Non-contiguous leaf parameters whose layout still admits the (un-merged) view: blocks must be views of the parameter's OWN storage
+    and update_params must change the parameter itself."""
+    import torch
+    from distributed_shampoo.utils.shampoo_distributor import Distributor
+    from distributed_shampoo import shampoo_types as st
+    for mk, label in ((lambda: torch.randn(3, 4, dtype=torch.float64).t(), "transposed (4,3)"),
+                      (lambda: torch.randn(6, 4, dtype=torch.float64)[::2], "strided rows (3,4)"),
+                      (lambda: torch.randn(2, 3, 4, dtype=torch.float64).permute(2, 0, 1), "permuted (4,2,3)")):
+        p = torch.nn.Parameter(mk())
+        if p.is_contiguous():
+            continue
+        try:
+            D = Distributor({st.PARAMS: [p], st.MAX_PRECONDITIONER_DIM: 2, st.USE_MERGE_DIMS: False})
+        except RuntimeError:
+            continue  # the real view() refuses this layout: outside the domain
+        blocks = D.local_blocked_params
+        if any(b.untyped_storage().data_ptr() != p.untyped_storage().data_ptr() for b in blocks):
+            return f"{label}: a block of a non-contiguous parameter is not a view of the parameter's own storage"
+        before = p.detach().clone()
+        D.update_params(tuple(torch.ones_like(b) for b in blocks))
+        if not torch.equal(p.detach(), before + 1):
+            return f"{label}: update_params on the blocks did not update the (non-contiguous) parameter"
+    return None
+
+
 def native_presplit(shape, maxdim, merge, cfgname, seed, steps=4):
     """optimising a tensor under a blocking == optimising its blocks as separate parameters (same gradients)"""
     import torch
@@ -506,6 +551,11 @@ def bounded(tier, seed):
         if bad:
             viol.append(dict(ob=f"bounded/blocked=pre-split[{shape},{maxdim},{merge},{cfgname}]", func="DistributedShampoo.step", input=dict(shape=shape, maxdim=maxdim, merge=merge, config=cfgname),
                              text=bad, detail=bad, replay=dict(kind="presplit", shape=list(shape), maxdim=maxdim, merge=merge, cfg=cfgname, seed=seed)))
+    bad = native_noncontiguous()
+    evals += 1
+    distinct.add(("non-contiguous",))
+    if bad:
+        viol.append(dict(ob="bounded/non-contiguous-parameter", func="Distributor", input=dict(layouts=["transposed", "strided", "permuted"]), text=bad, detail=bad, replay=dict(kind="noncontig")))
     samples = [dict(shape=(3, 4), max_preconditioner_dim=2, merge=True)]
     return dict(evaluations=evals, distinct_nontrivial=len(distinct), exhaustive=(tier != "quick"),
                 rule="real Distributor on real tensors: shapes of order 0..4 with small extents x max_preconditioner_dim x merge on/off; storage pointer, exact tiling, row-major order, extents, gradient alignment, in-place update; distinct = distinct (shape, max dim, merge)",
@@ -535,8 +585,14 @@ def replay_file(doc):
             return True, f"merge_small_dims({shape}, {thr}) raised {type(e).__name__}: {e}"
         bad = _check_merge_native(shape, thr, res)
         return bool(bad), f"merge_small_dims({shape}, {thr}) = {res}: {bad}"
+    if rp.get("kind") == "noncontig":
+        bad = native_noncontiguous()
+        return bool(bad), bad or "non-contiguous parameters are blocked into views of their own storage"
     if rp.get("kind") in ("split", "blocking", "merge"):
         import itertools as it
+        bad = native_noncontiguous()
+        if bad:
+            return True, bad
         for order in range(0, 5):
             for shape in it.product((1, 2, 3, 5), repeat=order):
                 for maxdim in (1, 2, 3, 4):
